@@ -664,8 +664,9 @@ def rule_escape_covers(ctx: Ctx, rule: str) -> None:
         bs, dbl, rp = (r"b'\\'", r"b'\\\\'", r"b'\\\\\\1'") if isb else (r"'\\'", r"'\\\\'", r"'\\\\\\1'")
         P = f'pattern.replace({bs}, {dbl})'
         M = f'RE_WIN_DRIVE[{k}].match({P})'
-        tail0 = f'RE_MAGIC_ESCAPE[{k}].sub({rp}, {P}[0:])'
-        plain = ('{' + tail0 + '}', "(b''+" + tail0 + ')', "{''}+{" + tail0 + '}', tail0)
+        plain = ()
+        for tail0 in (f'RE_MAGIC_ESCAPE[{k}].sub({rp}, {P}[0:])', f'RE_MAGIC_ESCAPE[{k}].sub({rp}, {P})'):  # `P[0:]` is `P`
+            plain += ('{' + tail0 + '}', "(b''+" + tail0 + ')', "{''}+{" + tail0 + '}', tail0)
         matched = [v for kk, v in p.decisions.items() if kk.startswith('RegexConst(') and '.match(' in kk]
         if matched == [True]:
             n_m += 1
